@@ -472,6 +472,49 @@ def check(run: Run) -> None:
         run.violation("R12.4", gm, sz.qualname, "sanitiser alphabet", f"the rule-name sanitiser can produce characters outside [a-z0-9_] / an empty or digit-initial name (filter ok={ok}, lower={lowered}, non-empty fallback={nonempty}, digit guard={digit_guard})")
 
 
+def _use_is_storage(par: ast.AST | None, u: ast.AST) -> bool:
+    return isinstance(par, (ast.Dict, ast.Return, ast.Compare)) or (isinstance(par, ast.Assign) and par.value is u) or (isinstance(par, ast.Call) and isinstance(par.func, ast.Name) and par.func.id in ("len", "str", "print")) or (isinstance(par, ast.Call) and ast.unparse(par.func).endswith(("echo", "append")))
+
+
+def _passes_through(fi: FuncInfo, call: ast.Call, arg: ast.AST, depth: int) -> bool:
+    """`call` hands `arg` to a function of the same module (plain name or self.<method>) in which the receiving parameter is
+    only stored in a dict, returned, compared or measured (or handed on the same way)"""
+    if depth > 3:
+        return False
+    f = call.func
+    if isinstance(f, ast.Name):
+        cands = [x for x in fi.module.functions.values() if x.name == f.id and x.cls is None]
+    elif isinstance(f, ast.Attribute) and isinstance(f.value, ast.Name) and f.value.id in ("self", "cls"):
+        cands = [x for x in fi.module.functions.values() if x.name == f.attr and x.cls == fi.cls]
+    else:
+        return False
+    if len(cands) != 1:
+        return False
+    h = cands[0]
+    params = [a.arg for a in h.node.args.args if a.arg not in ("self", "cls")]  # type: ignore[attr-defined]
+    if arg in call.args:
+        i = call.args.index(arg)
+        if i >= len(params):
+            return False
+        p = params[i]
+    else:
+        kws = [k.arg for k in call.keywords if k.value is arg]
+        if not kws or kws[0] is None or kws[0] not in params + [a.arg for a in h.node.args.kwonlyargs]:  # type: ignore[attr-defined]
+            return False
+        p = kws[0]
+    if any(isinstance(n, ast.Name) and n.id == p and isinstance(n.ctx, ast.Store) for n in walk_no_nested(h.node)):
+        return False
+    for u in walk_no_nested(h.node):
+        if isinstance(u, ast.Name) and u.id == p and isinstance(u.ctx, ast.Load):
+            par = getattr(u, "_parent", None)
+            if _use_is_storage(par, u):
+                continue
+            if isinstance(par, ast.Call) and _passes_through(h, par, u, depth + 1):
+                continue
+            return False
+    return True
+
+
 def _grammar_reaches_caller_intact(run: Run) -> None:
     """R12.5: what compile_schema / compile_gbnf_from_meta return is handed to the caller as is (no cutting, no post-editing)"""
     run.rule("R12.5", "the compiled grammar reaches the response unmodified: the value returned by compile_schema / compile_gbnf_from_meta is only stored, returned or measured, never sliced, split, concatenated or passed through a rewriting helper", 4)
@@ -492,6 +535,8 @@ def _grammar_reaches_caller_intact(run: Run) -> None:
                 if isinstance(u, ast.Name) and u.id == var and isinstance(u.ctx, ast.Load):
                     par = getattr(u, "_parent", None)
                     ok = isinstance(par, (ast.Dict, ast.Return, ast.Compare)) or (isinstance(par, ast.Assign) and par.value is u) or (isinstance(par, ast.Call) and isinstance(par.func, ast.Name) and par.func.id in ("len", "str", "print") ) or (isinstance(par, ast.Call) and ast.unparse(par.func).endswith(("echo", "append")))
+                    if not ok and isinstance(par, ast.Call) and _passes_through(fi, par, u, 0):
+                        ok = True  # handed to a helper of the same module that only stores / returns it
                     if not ok:
                         bad.append(par if par is not None else u)
             run.instance("R12.5", fi.module.loc(a), f"{fi.qualname}: grammar `{var}` from `{norm(a.value)}` is only stored / returned / measured", ok=not bad)
